@@ -1,6 +1,7 @@
 package main
 
 import (
+	"bufio"
 	"bytes"
 	"crypto/sha256"
 	"encoding/hex"
@@ -239,6 +240,10 @@ type Env struct {
 	aux [16]map[string]goldmark.Markdown
 	// one reusable read buffer per client (index = client id), see Op.Reuse
 	scratch [16][]byte
+	// stack W2k: one long-lived bufio.Writer per client over one long-lived destination (a
+	// server writing document after document to the same buffered connection)
+	keepBW   [16]*bufio.Writer
+	keepSink [16]*Sink
 }
 
 func newEnv(cfg Config, docs [][]byte) *Env {
@@ -395,13 +400,37 @@ func execOp(e *Env, trees map[int]*treeHandle, client, idx int, op Op, y *yielde
 	}()
 	var w io.Writer
 	needW := op.Kind != "Parse" && op.Kind != "ParseOnly" && op.Kind != "Walk" && op.Kind != "GC"
+	keepFrom := -1
 	if needW {
-		res.Sink = NewSink(op.Fault, uint64(client)<<32|uint64(idx))
 		st := op.Stack
 		if st == "" {
 			st = "W1"
 		}
-		w = mkStack(st, res.Sink, y)
+		if len(st) > 4 && st[:4] == "W2k:" && (op.Fault != nil || client < 0 || client >= len(e.keepBW)) {
+			st = "W2:" + st[4:] // the long-lived writer is only used by fault-free calls
+		}
+		if len(st) > 4 && st[:4] == "W2k:" {
+			if e.keepBW[client] == nil {
+				size := 0
+				fmt.Sscanf(st[4:], "%d", &size)
+				if size <= 0 {
+					panic("bad stack " + st)
+				}
+				e.keepSink[client] = NewSink(nil, uint64(client)<<32|0xffff)
+				e.keepBW[client] = bufio.NewWriterSize(e.keepSink[client], size)
+			}
+			res.Sink = e.keepSink[client]
+			res.Sink.y = y
+			keepFrom = len(res.Sink.acc)
+			if y == nil || idx%2 == 1 {
+				w = e.keepBW[client] // the bare *bufio.Writer, as a caller passes it
+			} else {
+				w = yieldingBuf{e.keepBW[client], y, nil}
+			}
+		} else {
+			res.Sink = NewSink(op.Fault, uint64(client)<<32|uint64(idx))
+			w = mkStack(st, res.Sink, y)
+		}
 	}
 	switch op.Kind {
 	case "Convert":
@@ -476,6 +505,11 @@ func execOp(e *Env, trees map[int]*treeHandle, client, idx int, op Op, y *yielde
 	}
 	if yb, ok := w.(yieldingBuf); ok && yb.s != nil {
 		yb.callerFlush()
+	}
+	if keepFrom >= 0 {
+		// what this call added to the long-lived destination
+		res.Out = append([]byte{}, res.Sink.acc[keepFrom:]...)
+		return
 	}
 	if res.Sink != nil {
 		res.Out = res.Sink.acc
